@@ -30,12 +30,12 @@ Report(it, l1, l2) ==
 CheckStore(it) ==
     LET S == it.S
         sched == it.sched
-        o == [R |-> it.R, RN |-> it.RN, RL |-> it.RL, RS |-> it.RS, D |-> it.D, DN |-> it.DN, diff |-> it.diff]
+        o == [R |-> it.R, RN |-> it.RN, RL |-> it.RL, RS |-> it.RS, D |-> it.D, DN |-> it.DN, diff |-> it.diff, PF |-> it.PF]
         pairs == CountKeys(S, sched, o)
         crossOk == Functional(seen \cup pairs)
         l1 == {cl \in Clauses : ~Holds(cl, S, sched, o)} \cup (IF crossOk THEN {} ELSE {"PctSetByCount"})
         m == ModelObs(S, sched)
-        l2 == o.R = m.R /\ o.D = m.D /\ o.RN = m.RN /\ o.DN = m.DN
+        l2 == o.R = m.R /\ o.D = m.D /\ o.RN = m.RN /\ o.DN = m.DN /\ o.PF = m.PF
     IN /\ Assert(WellFormed(S), <<"ill-formed store in item", it.id>>)
        /\ Report(it, l1, l2)
        /\ seen' = IF l1 = {} THEN seen \cup pairs ELSE seen      \* only cases that satisfy every clause teach the count -> percentile-set function
